@@ -103,7 +103,9 @@ def main():
         controls = [dict(time=k * UNIT, number=64, value=0, track=0, channel=0) for k in range(0, max_t + 1)]
         for reindex in (False, True):
             try:
-                pp = P.PerformedPart(notes=[dict(x) for x in notes], controls=[dict(x) for x in controls], ppq=480, mpq=500000)
+                tsigs = [dict(time=k * UNIT, beats=3 + k, beat_type=4) for k in range(0, max_t + 1)]
+                pp = P.PerformedPart(notes=[dict(x) for x in notes], controls=[dict(x) for x in controls], time_signatures=[dict(x) for x in tsigs],
+                                     ppq=480, mpq=500000)
                 sl = slice_ppart_by_time(pp, s * UNIT, e * UNIT, clip_note_off=clip, reindex_notes=reindex)
                 got = [[str(x["id"]), int(x["midi_pitch"]), round(x["note_on"] / UNIT, 6), round(x["note_off"] / UNIT, 6)] for x in sl.notes]
                 gotc = [round(x["time"] / UNIT, 6) for x in sl.controls]
@@ -117,6 +119,12 @@ def main():
             wantc = [float(t) for t in c["controls"]]
             if gotc is not None and gotc != wantc:
                 dev("part.controls", c, gotc, wantc)
+            if gotc is not None:
+                # time signatures are events like controls: those inside the window, counted from its start
+                gott = [[round(x["time"] / UNIT, 6), x["beats"]] for x in sl.time_signatures]
+                wantt = [[float(t), 3 + int(t) + s] for t in c["controls"]]
+                if gott != wantt:
+                    dev("part.time_signatures", c, gott, wantt)
             if not ticks_ok:
                 dev("part.ticks", c, [[x["note_on"], x["note_on_tick"], x["note_off"], x["note_off_tick"]] for x in sl.notes], "ticks = seconds * 960")
     out = os.path.join(common.OUT, "growth")
